@@ -66,7 +66,9 @@ def make_spec(seed):
         leaves[a] = {"name": leaves[a]["name"], "vms": ["vm1"], "dep": {"vm1": list(mdep)}}
         leaves[b] = {"name": leaves[b]["name"], "vms": ["vm1", "vm2"],
                      "dep": {"vm1": list(mdep), "vm2": ["images", pick(seed, "clonevm2", ["customize"] + [s["name"] for s in setups if s["type"] == "images"][:1])]}}
-    return {"seed": seed, "setups": setups, "multi": multi, "leaves": leaves}
+    # a worker restriction that excludes a list of variants (the shipped lists exclude variants no vm has)
+    net4_no = pick(seed, "net4no", [None, "no_vm2 = WinXP, Win7", "no_vm1 = Debian, Fedora", "no_vm2 = Win7, WinXP"])
+    return {"seed": seed, "setups": setups, "multi": multi, "leaves": leaves, "net4_no": net4_no}
 
 
 def setup_text(spec):
@@ -138,6 +140,15 @@ def write_suite(spec, path, shipped):
     text = text.rstrip("\n") + "\n" + leaves_text(spec)
     with open(groups, "w") as handle:
         handle.write(text)
+    if spec.get("net4_no"):
+        nets = os.path.join(tmp, "configs", "nets.cfg")
+        with open(nets) as handle:
+            text = handle.read()
+        anchor = "        suffix _net4\n"
+        assert anchor in text, "nets.cfg layout changed: cannot place the generated worker restriction"
+        text = text.replace(anchor, f"        {spec['net4_no']}\n" + anchor, 1)
+        with open(nets, "w") as handle:
+            handle.write(text)
     os.makedirs(os.path.join(tmp, "home"), exist_ok=True)
     try:
         os.rename(tmp, path)
